@@ -1815,8 +1815,8 @@ class _Desugar(ast.NodeTransformer):
         out = self._search_then_use(self._first_match(self._walrus(
             self._unroll(self._unroll_records(self._table_comprehension(
                 self._accumulate(self._devirtualise(
-                    self._sink_after_choice(
-                        self._const_then_test(out))))))))))
+                    self._sink_after_choice(self._const_then_test(
+                        self._return_of_result(out)))))))))))
         out = self._conditional_assign(self._match_literals(out))
         return self._dict_dispatch(out)
 
@@ -1880,6 +1880,54 @@ class _Desugar(ast.NodeTransformer):
                     continue
             out.append(h)
         return out
+
+    def _return_of_result(self, stmts):
+        """try: ...; r = A            try: ...; return A
+           except E: r = B     ->     except E: return B
+           return r
+        (likewise after if / elif / else): every way through the statement
+        ends by binding r, which is read by the return only."""
+        if len(stmts) < 2 or not isinstance(stmts[-1], ast.Return) or \
+                not isinstance(stmts[-1].value, ast.Name) or \
+                not isinstance(stmts[-2], (ast.If, ast.Try)):
+            return stmts
+        r, st = stmts[-1].value.id, stmts[-2]
+        leaves = []
+
+        def collect(node):
+            if isinstance(node, ast.If):
+                for blk in (node.body, node.orelse):
+                    if len(blk) == 1 and isinstance(blk[0], (ast.If,
+                                                             ast.Try)):
+                        collect(blk[0])
+                    else:
+                        leaves.append(blk)
+            else:
+                if node.finalbody:
+                    leaves.append(None)
+                leaves.append(node.orelse if node.orelse else node.body)
+                for h in node.handlers:
+                    leaves.append(h.body)
+        collect(st)
+        if any(b is None or not b for b in leaves):
+            return stmts
+        falling = [b for b in leaves if not isinstance(
+            b[-1], (ast.Return, ast.Raise, ast.Continue, ast.Break))]
+        if not falling or not all(
+                isinstance(b[-1], ast.Assign) and len(b[-1].targets) == 1 and
+                isinstance(b[-1].targets[0], ast.Name) and
+                b[-1].targets[0].id == r for b in falling):
+            return stmts
+        reads = sum(1 for x in ast.walk(st) if isinstance(x, ast.Name) and
+                    x.id == r and isinstance(x.ctx, ast.Load))
+        writes = sum(1 for x in ast.walk(st) if isinstance(x, ast.Name) and
+                     x.id == r and isinstance(x.ctx, (ast.Store, ast.Del)))
+        if reads or writes != len(falling):
+            return stmts
+        for b in falling:
+            b[-1] = ast.copy_location(ast.Return(value=b[-1].value), b[-1])
+        self.count += 1
+        return stmts[:-1]
 
     def _const_then_test(self, stmts):
         """x = None                          (what a defaulted parameter of a
